@@ -299,6 +299,11 @@ def compare_class(prog, cls):
                             note("L4", "flag[%s]" % f, "self.%s is written unshifted into its byte but read with mask 0x%02x, shift %d" % (f, m, r[2]["shift"]),
                                  r[2].get("node"))
             if not any(r[1] == exp_off for r in ok_kind):
+                cl = [x for x in dec.reads if x["kind"] == "charlen" and any(isinstance(r[1], Lin) and x["sym"] in r[1].syms for r in ok_kind)]
+                if cl:
+                    note("L5", "offset[%s]" % f, "self.%s is located with len(%s) - a count of decoded characters/items - instead of the byte length read "
+                         "from the packet: the two differ as soon as a character needs more than one byte" % (f, cl[0]["of"]), cl[0].get("node"))
+                    continue
                 note("L3", "offset[%s]" % f, "self.%s is written at body offset %s but read at %s: field order/width disagree" % (
                     f, exp_off, sorted({str(r[1]) for r in ok_kind})))
         # ---- flag bytes in the fixed header
